@@ -21,8 +21,8 @@ Module Names.
 Import Coq.Strings.String.
 (* OBLIGATION *)
 Theorem translated_functions :
-  G.translated = ["Begin"; "Ceiling"; "Clear"; "Empty"; "End"; "First"; "Floor"; "Get"; "GetNode"; "IteratorAt"; "Iterator_Node"; "Key"; "Last"; "Left"; "New"; "NewWith"; "Next"; "NextTo"; "Node_Size"; "Prev"; "PrevTo"; "Put"; "Remove"; "Right"; "Tree_Iterator"; "Tree_Size"; "Value"; "deleteCase1"; "deleteCase2"; "deleteCase3"; "deleteCase4"; "deleteCase5"; "deleteCase6"; "grandparent"; "insertCase1"; "insertCase2"; "insertCase3"; "insertCase4"; "insertCase5"; "lookup"; "maximumNode"; "nodeColor"; "replaceNode"; "rotateLeft"; "rotateRight"; "sibling"; "uncle"]%string
-  /\ G.skipped = ["Keys"; "String"; "Values"; "output"]%string.
+  G.translated = ["Begin"; "Ceiling"; "Clear"; "Empty"; "End"; "First"; "Floor"; "Get"; "GetNode"; "IteratorAt"; "Iterator_Node"; "Key"; "Keys"; "Last"; "Left"; "New"; "NewWith"; "Next"; "NextTo"; "Node_Size"; "Prev"; "PrevTo"; "Put"; "Remove"; "Right"; "Tree_Iterator"; "Tree_Size"; "Value"; "Values"; "deleteCase1"; "deleteCase2"; "deleteCase3"; "deleteCase4"; "deleteCase5"; "deleteCase6"; "grandparent"; "insertCase1"; "insertCase2"; "insertCase3"; "insertCase4"; "insertCase5"; "lookup"; "maximumNode"; "nodeColor"; "replaceNode"; "rotateLeft"; "rotateRight"; "sibling"; "uncle"]%string
+  /\ G.skipped = ["String"; "output"]%string.
 Proof. repeat split. Qed.
 Print Assumptions translated_functions.
 End Names.
